@@ -516,5 +516,51 @@ def check_find_next(prog, fn):
                 pass        # returning a possibly empty place is harmless (the scan loop handles an empty list)
         else:
             problems.append('place helper returns %s' % show(v, 3))
-    # skipping: a place is passed over only on the empty side
+    # skipping: a selected place is passed over (the loop pulls the next one) only on the empty side of its list's emptiness
+    # test - a place skipped for any other reason is never scanned, so its expired copies are never dropped (C16) and, if the
+    # reason is wrong, its live values never reported (C03)
+    loops = cfg.loops()
+    inl = [h for h, body in loops.items() if n.point[0] in body]
+    if inl:
+        h = min(inl, key=lambda x: len(loops[x]))
+        body = loops[h]
+        empty_edges = set()
+        for s0, d0 in b.switch_discr.items():
+            d = strip(d0)
+            neg = False
+            while d.kind == 'un' and d.args[0] == 'Not':
+                d = strip(d.args[1])
+                neg = not neg
+            if d.kind == 'call' and d.callee_name() == 'is_empty' and derives(d, n):
+                t = b.mir['blocks'][s0]['term']
+                for succ in set(cfg.succ[s0]):
+                    tr = edge_truth(t, succ)
+                    if tr is not None and (tr != neg):
+                        empty_edges.add((s0, succ))
+        # the Some side of the pull
+        sw = [x for x, d in b.switch_discr.items() if strip(d).kind == 'discr' and any(y is n for y in walk(d))]
+        starts = []
+        for x in sw:
+            t = b.mir['blocks'][x]['term']
+            for tv, tb in t['targets']:
+                if tv == 1:
+                    starts.append(tb)
+            if [tv for tv, _ in t['targets']] == [0]:
+                starts.append(t['otherwise'])
+        seen, stack = set(), list(starts)
+        skipped_nonempty = False
+        while stack:
+            x = stack.pop()
+            if x in seen or x not in body:
+                continue
+            seen.add(x)
+            for s2 in cfg.succ[x]:
+                if (x, s2) in empty_edges:
+                    continue
+                if s2 == h:
+                    skipped_nonempty = True
+                elif s2 in body:
+                    stack.append(s2)
+        if skipped_nonempty and starts:
+            problems.append('a selected place can be passed over on a path that has not found its list empty: that list is never scanned (expired copies stay, values may be missed)')
     return problems
